@@ -21,6 +21,7 @@ struct cfg {
   int bound;
   int free_drops;
   int allow_dup, allow_reorder;
+  int deaf_first; /* every copy of the first request is lost: it ends by give-up (NACK); the later requests must still work */
   int burst; /* the application submits all (Confirmable) requests back to back; NSTART (1) holds the later ones */
 };
 
@@ -392,6 +393,18 @@ step(void) {
   uint8_t cost[VX_MAXALT];
   int n = 0;
   unsigned tmo = ns_prepare_all();
+  if (C->deaf_first && reqs[0].submitted) {
+    /* the network loses every copy of request 0 */
+    for (int j = 0; j < ns_inflight_count();) {
+      ns_dgram_t *d = ns_inflight(j);
+      if (!d->from_raw && d->len >= 4 && ((d->data[0] >> 4) & 3) == 0 && d->data[1] && d->data[1] < 32 &&
+          (d->data[2] << 8 | d->data[3]) == (reqs[0].mid & 0xffff)) {
+        vx_observe("   (copy of request 0 lost)");
+        ns_drop(j);
+      } else
+        j++;
+    }
+  }
   int nf = ns_inflight_count();
   if (C->burst && next_req < C->nreq)
     ev[n].kind = EV_APP, ev[n++].idx = 0;
@@ -555,8 +568,8 @@ static int ncfgs;
 static void
 add(struct cfg c) {
   cfgs = realloc(cfgs, sizeof *cfgs * (size_t)(ncfgs + 1));
-  snprintf(c.name, sizeof c.name, "c07:%s,n=%d,k=%s,tkl=%d%d%d,fail=%d,fd=%d,dup=%d,ro=%d,burst=%d,B=%d", style_names[c.style], c.nreq, c.kinds,
-           c.tkls[0], c.tkls[1], c.tkls[2], c.fail_mask, c.free_drops, c.allow_dup, c.allow_reorder, c.burst, c.bound);
+  snprintf(c.name, sizeof c.name, "c07:%s,n=%d,k=%s,tkl=%d%d%d,fail=%d,fd=%d,dup=%d,ro=%d,burst=%d,deaf=%d,B=%d", style_names[c.style], c.nreq, c.kinds,
+           c.tkls[0], c.tkls[1], c.tkls[2], c.fail_mask, c.free_drops, c.allow_dup, c.allow_reorder, c.burst, c.deaf_first, c.bound);
   cfgs[ncfgs++] = c;
 }
 
@@ -596,6 +609,14 @@ main(int argc, char **argv) {
       strcpy(c.kinds, s ? "GPG" : "GG");
       add(c);
     }
+  /* the first exchange ends by give-up (all copies of its request lost); later requests on the session, submitted after
+   * it or held behind it, must still conclude */
+  for (int st = 0; st <= ST_RAW_ACK_CON; st += ST_RAW_ACK_CON)
+    for (int b = 0; b < 2; b++) {
+      struct cfg c = {.style = st, .nreq = 2, .tkls = {2, 8, 0}, .bound = T ? 2 : 1, .allow_dup = 0, .allow_reorder = 1, .burst = b, .deaf_first = 1};
+      strcpy(c.kinds, "GG");
+      add(c);
+    }
   /* all drop subsets of the first 10 datagrams: piggybacked style (where every subset must end in response or NACK) */
   for (int s = 0; s < 2; s++) {
     struct cfg c = {.style = ST_PIGGY, .nreq = 1, .tkls = {2, 0, 0}, .bound = 0, .free_drops = 10};
@@ -610,7 +631,7 @@ main(int argc, char **argv) {
   vx_ev_rule("executions of a real libcoap client against a real libcoap server (piggybacked / async separate response) or a raw peer "
              "(empty ACK + separate NON/CON in either order); request sequences of 1-3 CON GET / CON PUT / NON GET with token lengths 0/2/8 "
              "and handler verdicts OK/FAIL; all schedules with <= bound drop/duplicate/reorder deviations, timers only when the network is "
-             "empty (delay < ACK_TIMEOUT); plus all 2^10 drop subsets of the first 10 datagrams for the piggybacked style; non-trivial = a "
+             "empty (delay < ACK_TIMEOUT); plus all 2^10 drop subsets of the first 10 datagrams for the piggybacked style, back-to-back submissions (later requests held by NSTART) and a first exchange that ends by give-up; non-trivial = a "
              "deviation was taken or a retransmission occurred; distinct = distinct observation logs");
   vx_ev_assumption("server applications answer (coap_async_trigger) before any client timer fires; a server that never answers after its empty ACK is outside the statement");
   vx_ev_assumption("raw peers are idempotent: every copy of a request is answered with the same message ids");
